@@ -22,6 +22,10 @@ def is_canonical(steps):
     """behaviours that get EVERY token of the catalogue: at most one non-canonical write path in them."""
     if steps[-1]["act"] == "WriteReserved":
         return False
+    if steps[-1]["act"] == "TombstoneWinner":
+        # promotion of a non-winning leaf: every token as the promoted body written by every write path
+        # (Create(wp), Branch(BulkDocsNE, wins), TombstoneWinner); the other promotion behaviours are sampled
+        return len(steps) == 3 and steps[1]["act"] == "Branch" and steps[1]["wp"] == "BulkDocsNE" and steps[1]["wins"]
     if len(steps) == 1:
         return True
     if len(steps) == 2:
@@ -51,6 +55,8 @@ def run(ctx):
     if not matrix <= covered:
         raise Inconclusive("exported behaviours do not cover the declared matrix: missing %s" % sorted(matrix - covered)[:8])
     nresv = sum(1 for b in behs if b["steps"][-1]["act"] == "WriteReserved")
+    if not any(b["steps"][-1]["act"] == "TombstoneWinner" for b in behs):
+        raise Inconclusive("no behaviour promotes a non-winning leaf (TombstoneWinner)")
     sample = 8 if ctx.quick() else 5
     for b in behs:
         b["ntok"] = 0 if is_canonical(b["steps"]) else (sample if len(b["steps"]) <= 2 else 2)
